@@ -9,6 +9,7 @@ from __future__ import annotations
 import collections
 import functools
 import importlib
+import inspect
 import math
 import os
 import shutil
@@ -21,7 +22,7 @@ from fiddle._src.codegen.auto_config import experimental_top_level_api as ac_api
 
 import vt
 from vf import canon as C
-from vf import gen
+from vf import dagedit, gen
 from vf.common import safe_repr
 from vt import dup1, dup2, kinds, sigs, tags as vtags
 
@@ -46,7 +47,8 @@ ASSUMPTIONS = [
 MINIMUMS = {
     'quick': {'evaluations': 1200, 'accepted:new_codegen': 300, 'accepted:auto_config_codegen': 300,
               'executed_equal': 500, 'values_checked': 2000, 'with_sub_fixtures': 100,
-              'with_complexity': 200, 'with_history': 150},
+              'with_complexity': 200, 'with_history': 150,
+              'names:sub-fixture-with-shared-parameter': 300},
     'thorough': {'evaluations': 1000},
 }
 
@@ -61,9 +63,12 @@ FIXTURE_NAMES = ['config_fixture', 'fixture', 'my_experiment']
 
 
 def plan(tier):
-  n = 40 if tier == 'quick' else 3000
+  n = 70 if tier == 'quick' else 3000
   shards = [{'name': f's{i}', 'kind': 'main', 'n': n, 'start': i * n, 'timeout': 3000}
             for i in range(14)]
+  nn = 60 if tier == 'quick' else 2500
+  shards += [{'name': f'n{i}', 'kind': 'names', 'n': nn, 'start': i * nn, 'timeout': 3000}
+             for i in range(4)]
   nv = 1200 if tier == 'quick' else 100000
   shards += [{'name': f'v{i}', 'kind': 'values', 'n': nv, 'start': i * nv} for i in range(2)]
   return shards
@@ -122,6 +127,44 @@ def make_config(rng):
       keys = set(n.kw) | set(range(len(n.pos)))
       n.tags = {k: v for k, v in n.tags.items()
                 if (k in keys or gen.normalize_key(n.fn, k) in keys or k in n.kw)}
+  return root
+
+
+def make_names_config(rng):
+  """Dense name collisions: few attribute names, nested same-named attributes, shared nodes that
+  cross sub-fixture boundaries (so they become sub-fixture parameters) next to same-named complex
+  expressions that variable extraction has to name."""
+  fam = rng.choice([[kinds.node, kinds.node2, kinds.three], [kinds.Base, kinds.Other, kinds.Mid],
+                    [kinds.node, kinds.three, kinds.Base, kinds.Other]])
+  small = [0, 1, 'a', None, (1, 2)]
+
+  def names(fn):
+    return [p for p in inspect.signature(fn).parameters
+            if p not in ('uid', 'va', 'vk', 'y')]
+
+  def tree(d):
+    fn = rng.choice(fam)
+    n = gen.B(rng.choice(['Config', 'Config', 'Config', 'Partial']), fn)
+    for k in names(fn):
+      r = rng.random()
+      if d > 0 and r < 0.6:
+        n.kw[k] = tree(d - 1)
+      elif d > 0 and r < 0.7:
+        n.kw[k] = gen.Seq('list', [tree(d - 1), gen.Leaf(rng.choice(small))])
+      elif r < 0.9:
+        n.kw[k] = gen.Leaf(rng.choice(small))
+    return n
+
+  root = tree(rng.choice([2, 3, 3]))
+  root.btype = 'Config'
+  for _ in range(rng.choice([1, 1, 2, 3])):
+    shared = tree(rng.choice([0, 1]))
+    shared.btype = 'Config'
+    hosts = [n for n in gen.walk(root) if isinstance(n, gen.B) and n is not shared
+             and n.uid not in {x.uid for x in gen.walk(shared)}]
+    rng.shuffle(hosts)
+    for h in hosts[:rng.choice([2, 2, 3])]:
+      h.kw[rng.choice(names(h.fn))] = shared
   return root
 
 
@@ -281,8 +324,17 @@ def _rm_btype(btype):
 
 def _rm_sharing(root):
   from vf import dagedit
+  import copy as _copy
   ch = False
   seen = set()
+  # mutable leaf objects (lists / dicts / sets of the leaf pool) referenced from several places
+  leaf_seen = set()
+  for n in gen.walk(root):
+    if isinstance(n, gen.Leaf) and not C.is_value(n.value):
+      if id(n.value) in leaf_seen:
+        n.value = _copy.copy(n.value)
+        ch = True
+      leaf_seen.add(id(n.value))
   for p_, s_ in dagedit.refs(root):
     c = dagedit.get_ref(p_, s_)
     if isinstance(c, gen.Leaf):
@@ -378,7 +430,13 @@ def present_features(root, opt):
     c = dagedit.get_ref(p_, s_)
     if not isinstance(c, gen.Leaf):
       cnt[c.uid] += 1
-  if any(v >= 2 for v in cnt.values()):
+  leaf_ids = collections.Counter(id(n.value) for n in nodes
+                                 if isinstance(n, gen.Leaf) and not C.is_value(n.value))
+  for p_, s_ in dagedit.refs(root):
+    c = dagedit.get_ref(p_, s_)
+    if isinstance(c, gen.Leaf) and not C.is_value(c.value):
+      cnt[('leafref', id(c.value))] += 1
+  if any(v >= 2 for v in cnt.values()) or any(v >= 2 for v in leaf_ids.values()):
     f.append('sharing')
   if any((isinstance(n, gen.B) and n.fn in (dup1.same, dup2.same)) or
          (isinstance(n, gen.Leaf) and n.value in (dup1.Thing, dup2.Thing, dup1.same, dup2.same))
@@ -471,8 +529,9 @@ def run_main(spec, acc):
   scratch = tempfile.mkdtemp(prefix='vf-c12-')
   sys.path.insert(0, scratch)
   try:
+    names_mode = spec.get('kind') == 'names'
     for ci, rng in acc.cases(spec):
-      root = make_config(rng)
+      root = make_names_config(rng) if names_mode else make_config(rng)
       sketch = gen.sketch(root)
       nb = sum(isinstance(n, gen.B) for n in gen.walk(root))
       bnodes = [n for n in gen.walk(root) if isinstance(n, gen.B) and n is not root
@@ -487,9 +546,26 @@ def run_main(spec, acc):
           if rng.random() < 0.35:
             opt['history'] = True
             acc.obs('with_history')
-          if bnodes and rng.random() < 0.35:
+          if names_mode and bnodes:
+            # sub-fixtures that contain a node which is also referenced outside of them
+            cnt = collections.Counter()
+            for p_, s_ in dagedit.refs(root):
+              cnt[dagedit.get_ref(p_, s_).uid] += 1
+            crossing = [n for n in bnodes if cnt[n.uid] == 1 and any(
+                cnt[x.uid] >= 2 for x in gen.walk(n) if x is not n and isinstance(x, gen.B))]
+            pool = crossing or bnodes
+            opt['sub_uids'] = [n.uid for n in rng.sample(pool, rng.randint(1, min(2, len(pool))))]
+            acc.obs('with_sub_fixtures')
+            acc.obs('names:sub-fixture-with-shared-parameter' if crossing else 'names:no-crossing')
+            if rng.random() < 0.85:
+              opt['complexity'] = rng.choice([0, 1, 2, 3, 4, 5])
+              acc.obs('with_complexity')
+          elif bnodes and rng.random() < 0.35:
             opt['sub_uids'] = [n.uid for n in rng.sample(bnodes, rng.randint(1, min(2, len(bnodes))))]
             acc.obs('with_sub_fixtures')
+            if opt['complexity'] is None and rng.random() < 0.5:
+              opt['complexity'] = rng.choice([0, 1, 2, 3])     # sub-fixtures x variable extraction
+              acc.obs('with_complexity')
           kind, detail = attempt(root, genname, opt, scratch)
           acc.case((sketch, genname, repr(sorted(opt.items(), key=str))), nb >= 2 and kind == 'ok')
           if kind == 'realise-failed':
@@ -675,4 +751,4 @@ def run_values(spec, acc):
 
 
 def run_shard(spec, seed, acc):
-  {'main': run_main, 'values': run_values}[spec['kind']](spec, acc)
+  {'main': run_main, 'names': run_main, 'values': run_values}[spec['kind']](spec, acc)
